@@ -21,19 +21,19 @@ PLANS = {
     'C07': {
         'quick': [
             leg('X', 'X', 40, opts={'ops': 10, 'p_model': 0.3}, weight=10,
-                max_workers=10, selftest=2, timeout=1700),
+                max_workers=9, selftest=2, timeout=1700),
             leg('S', 'S', 30, opts={'ops': 6, 'p_model': 0.2}, weight=5,
-                max_workers=5, selftest=2, timeout=1700),
-            leg('R', 'R', 10, opts={'events': 10}, weight=2, max_workers=2,
+                max_workers=4, selftest=2, timeout=1700),
+            leg('R', 'R', 10, opts={'events': 10}, weight=2, max_workers=3,
                 selftest=1, timeout=1700),
         ],
         'thorough': [
             leg('X', 'X', 320, opts={'ops': 12, 'p_model': 0.35}, weight=9,
-                max_workers=9, selftest=4, timeout=3400, deadline=3500),
+                max_workers=8, selftest=4, timeout=3400, deadline=3500),
             leg('S', 'S', 320, opts={'ops': 8, 'p_model': 0.25, 'max_devices': 64,
                                      'max_devices_model': 16}, weight=7,
-                max_workers=6, selftest=4, timeout=3400, deadline=3500),
-            leg('R', 'R', 60, opts={'events': 14}, weight=2, max_workers=2,
+                max_workers=5, selftest=4, timeout=3400, deadline=3500),
+            leg('R', 'R', 60, opts={'events': 14}, weight=2, max_workers=3,
                 selftest=2, timeout=3400, deadline=3500),
         ],
         'rule': (
